@@ -52,6 +52,9 @@ def objects(prob0):
             _CACHE["obj"] = Objective.Objective(fam, x0, p0)
             _CACHE["al"] = ConstrainedObjective.ConstrainedObjective(fam, cons, x0, p0, np.zeros(2), np.ones(2))
             _CACHE["bal"] = BoundConstrainedObjective.BoundConstrainedObjective(fam, x0, p0, np.array([0]))
+            # diagonally scaled objective with a strongly non-uniform scaling (sqrt of a fixed stiffness diagonal)
+            ps = Objective.PrecondStrategy(lambda x, p: csc_matrix(onp.diag([0.25, 9.0, 400.0])))
+            _CACHE["sobj"] = Objective.ScaledObjective(fam, x0, p0, ps)
     return _CACHE
 
 
@@ -117,13 +120,13 @@ def run_history(prob, hist, tid):
             x = x - onp.linalg.solve(onp.asarray(jax.hessian(fam)(np.array(x), pfull)), onp.asarray(gx))
     for st in hist:
         drv, warm, upd, v = st["drv"], bool(st["warm"]), bool(st["upd"]), st["p"]
-        real = {"TR": O["obj"], "SPG": O["obj"], "AL": O["al"], "BAL": O["bal"]}[drv]
+        real = {"TR": O["obj"], "TRS": O["sobj"], "SPG": O["obj"], "AL": O["al"], "BAL": O["bal"]}[drv]
         p_old = params(prob, bvec(prob, pv))
         p_new = params(prob, bvec(prob, v))
         real.p = p_old
         x0 = np.array(x)
         with Silence():
-            real.update_precond(x0 * real.scaling if drv == "BAL" else x0)
+            real.update_precond(x0 * real.scaling if drv in ("BAL", "TRS") else x0)
         if drv in ("AL", "BAL"):
             real.lam = np.zeros_like(real.lam)
             real.reset_kappa()
@@ -133,7 +136,7 @@ def run_history(prob, hist, tid):
         ret, flag, xr = "raised", None, None
         with Silence():
             try:
-                if drv == "TR":
+                if drv in ("TR", "TRS"):
                     s = EquationSolver.get_settings(debug_info=False, tol=tol)
                     xr, flag = EquationSolver.nonlinear_equation_solve(proxy, x0, p_new, s, useWarmStart=warm, updatePrecond=upd)
                     ret = "flagTrue" if flag else "flagFalse"
@@ -175,14 +178,20 @@ def run_history(prob, hist, tid):
         e = dict(e="Step", drv=drv, warm=warm, upd=upd, ops=ops, pIsNew=bool(real.p is p_new), jvpAtOld=bool(jvp_at_old),
                  ws="NA", lands="NA", startIsX0=True, ret=ret, gSmallNew=False)
         if x_start is not None:
-            xs = x_start / onp.asarray(real.scaling) if drv == "BAL" else x_start
+            xs = x_start / onp.asarray(real.scaling) if drv in ("BAL", "TRS") else x_start
             if warm:
                 e["ws"], e["lands"] = ref_codes(prob, x0, bvec(prob, pv), bvec(prob, v), xs)
             else:
                 e["startIsX0"] = bool(onp.all(xs == onp.asarray(x0)))
         if ret != "raised":
             pn = params(prob, bvec(prob, v))
-            if drv in ("TR", "SPG"):
+            if drv == "TRS":         # the scaled objective's flag is about its own (scaled) gradient, under the NEW parameters
+                sav = real.p
+                real.p = pn
+                gn = onp.asarray(real.gradient(np.array(xr) * real.scaling))
+                real.p = sav
+                e["gSmallNew"] = bool(onp.linalg.norm(gn) < tol * (1 + 1e-9))
+            elif drv in ("TR", "SPG"):
                 gn = onp.asarray(jax.grad(fam)(np.array(xr), pn))
                 e["gSmallNew"] = bool(onp.linalg.norm(gn) < tol * (1 + 1e-9))
             else:
